@@ -51,13 +51,18 @@ CMD = st.one_of(
     st.tuples(st.just("FWD"), st.sampled_from(["k1", "k2", "sysA"])).map(list),
     st.tuples(st.just("STOPC"), st.sampled_from(["k1", "k2", "k3", "sysA", "nobody"])).map(list),
     st.tuples(st.just("ECHO"), st.sampled_from(["k1", "k2"])).map(list),
-    st.tuples(st.just("GRAND"), st.sampled_from(["k1", "k2"])).map(list),
+    st.tuples(st.just("GRAND"), st.sampled_from(["k1", "k2"]), st.sampled_from([None, None, "sysG1", "sysG2"])).map(list),
+    st.tuples(st.just("GSTOP"), st.sampled_from(["k1", "k2"])).map(list),
     st.tuples(st.just("ADV"), st.sampled_from([10, 30, 60])).map(list),
 )
 
 
 def strategy(tier, campaign):
-    return st.fixed_dictionaries({"engine": st.sampled_from(["async", "sync"]), "cmds": st.lists(CMD, min_size=2, max_size=14)})
+    pre = st.sampled_from([[], [], [["SPAWN", "k1", None]], [["SPAWN", "k1", None], ["GRAND", "k1", "sysG1"]],
+                           [["SPAWN", "k2", "sysA"], ["GRAND", "k2", None]], [["SPAWN", "k1", None], ["SPAWN", "k2", None], ["GRAND", "k2", "sysG2"]]])
+    cmds = st.builds(lambda a, b: [list(x) for x in a] + b, pre, st.lists(CMD, min_size=2, max_size=12))
+    return st.fixed_dictionaries({"engine": st.sampled_from(["async", "sync"]), "cmds": cmds,
+                                  "epilogue": st.sampled_from([None, None, "done-child-with-grandchild", "done-blocking-child-with-grandchild"])})
 
 
 # ----------------------------------------------------------------------------- machines
@@ -73,8 +78,10 @@ def machines():
         "MSG": {"actions": ["inbox"]},
         "FWDMSG": {"actions": ["inbox"]},
         "ECHO": {"actions": [{"type": "xstate.sendParent", "params": lambda a: {"event": {"type": "FROMKID", "seq": a["event"].payload.get("seq")}}}]},
-        "GRAND": {"actions": [{"type": "xstate.spawnChild", "params": {"src": "grand", "id": "g"}}]},
-    }}}}, logic=MachineLogic(actions={"inbox": inbox}, services={"grand": grand}))
+        "GRAND": {"actions": [{"type": "xstate.spawnChild", "params": lambda a: {"src": "grand", "id": "g", "systemId": a["event"].payload.get("gsys")}}]},
+        "GSTOP": {"actions": [{"type": "xstate.stopChild", "params": {"id": "g"}}]},
+        "FIN": "fin",
+    }}, "fin": {"type": "final"}}}, logic=MachineLogic(actions={"inbox": inbox}, services={"grand": grand}))
 
     def p(key):
         return lambda a: a["event"].payload.get(key)
@@ -89,7 +96,10 @@ def machines():
         "FWDMSG": {"actions": [{"type": "xstate.forwardTo", "params": lambda a: {"to": a["event"].payload.get("to")}}]},
         "STOPC": {"actions": [{"type": "xstate.stopChild", "params": lambda a: {"id": a["event"].payload.get("id")}}]},
         "ECHO": {"actions": [{"type": "xstate.sendTo", "params": lambda a: {"to": a["event"].payload.get("to"), "event": {"type": "ECHO", "seq": a["event"].payload.get("seq")}}}]},
-        "GRAND": {"actions": [{"type": "xstate.sendTo", "params": lambda a: {"to": a["event"].payload.get("to"), "event": {"type": "GRAND"}}}]},
+        "GRAND": {"actions": [{"type": "xstate.sendTo", "params": lambda a: {"to": a["event"].payload.get("to"), "event": {"type": "GRAND", "gsys": a["event"].payload.get("gsys")}}}]},
+        "GSTOP": {"actions": [{"type": "xstate.sendTo", "params": lambda a: {"to": a["event"].payload.get("to"), "event": {"type": "GSTOP"}}}]},
+        "KFIN": {"actions": [{"type": "xstate.sendTo", "params": lambda a: {"to": a["event"].payload.get("to"), "event": {"type": "FIN"}}}]},
+        "SPAWN_BLOCK": {"actions": [{"type": "spawn_blocking_kid", "params": {"id": "z"}}]},
         "FROMKID": {"actions": ["fromkid"]},
     }}}}
 
@@ -115,7 +125,7 @@ class Model:
 
     def resolve(self, to):
         """-> (id or None, 'ok'|'unknown'|'ambiguous'|'unspecified')"""
-        if to in self.system and self.actors[self.system[to]]["alive"]:
+        if to in self.system and self.system[to] in self.actors and self.actors[self.system[to]]["alive"]:
             return self.system[to], "ok"
         if to in self.actors and self.actors[to]["alive"]:
             return to, "ok"
@@ -167,7 +177,9 @@ def _payload(cmd, seq, model):
     if k == "ECHO":
         return "ECHO", {"to": cmd[1], "seq": seq}
     if k == "GRAND":
-        return "GRAND", {"to": cmd[1], "seq": seq}
+        return "GRAND", {"to": cmd[1], "gsys": cmd[2] if len(cmd) > 2 else None, "seq": seq}
+    if k == "GSTOP":
+        return "GSTOP", {"to": cmd[1], "seq": seq}
     raise ValueError(k)
 
 
@@ -201,7 +213,16 @@ def run(case):
                     await it.send(Event(t, p))
                 await settle()
                 obs.append(_snapshot(it))
-            kids = list(_all_actors(it))
+            if case.get("epilogue"):
+                # a child that has reached its own final state while its grandchild is still running
+                await it.send(Event("SPAWN", {"id": "z", "sys": None}))
+                await settle()
+                await it.send(Event("GRAND", {"to": "z", "gsys": None}))
+                await settle()
+                await it.send(Event("KFIN", {"to": "z"}))
+                await settle()
+                extra["epilogue"] = [(a.id, a.status) for a in _all_actors(it)]
+            kids = list(_all_actors(it)) + list(extra.pop("_seen", []))
             await it.stop()
             await asyncio.sleep(0.2)
             extra["after_stop"] = [(a.id, a.status) for a in kids]
@@ -222,7 +243,19 @@ def run(case):
                     it.send(Event(t, p))
                 sched.settle()
                 obs.append(_snapshot(it))
-            kids = list(_all_actors(it))
+            if case.get("epilogue"):
+                blocking = case["epilogue"].startswith("done-blocking")
+                it.send(Event("SPAWN_BLOCK", {}) if blocking else Event("SPAWN", {"id": "z", "sys": None}))
+                sched.settle()
+                it.send(Event("GRAND", {"to": "z", "gsys": None}))
+                sched.settle()
+                seen = list(_all_actors(it))
+                it.send(Event("KFIN", {"to": "z"}))
+                sched.advance(0.05)
+                sched.settle()
+                extra["epilogue"] = [(a.id, a.status) for a in seen]
+                extra["_seen"] = seen
+            kids = list(_all_actors(it)) + [a for a in extra.pop("_seen", []) if a not in _all_actors(it)]
             it.stop()
             sched.advance(0.2)
             sched.settle()
@@ -269,7 +302,7 @@ def check_case(case) -> CaseResult:
                 judged = False  # reuse of a live id: the model stops here; the census below still runs
                 left = "live-id-reuse"
                 break
-            if cmd[2] and cmd[2] in m.system and m.actors[m.system[cmd[2]]]["alive"]:
+            if cmd[2] and cmd[2] in m.system and (m.system[cmd[2]] not in m.actors or m.actors[m.system[cmd[2]]]["alive"]):
                 judged = False  # a live systemId is re-registered: unspecified
                 left = "unjudged"
                 break
@@ -319,7 +352,7 @@ def check_case(case) -> CaseResult:
                     nontrivial = True
                 m.actors[tgt]["alive"] = False
                 for s_, a_ in list(m.system.items()):
-                    if a_ == tgt:
+                    if a_ == tgt or a_.startswith(tgt + ":"):
                         del m.system[s_]
         elif k == "ECHO":
             tgt, how = m.resolve(cmd[1])
@@ -327,12 +360,28 @@ def check_case(case) -> CaseResult:
                 m.fromkid.append(i)
         elif k == "GRAND":
             tgt, how = m.resolve(cmd[1])
+            gsys = cmd[2] if len(cmd) > 2 else None
             if tgt is not None:
                 if m.actors[tgt].get("grand"):
                     judged = False  # the child re-spawns its grandchild under the same (live) id
                     left = "live-id-reuse"
                     break
+                if gsys and gsys in m.system:
+                    judged = False  # a live systemId is re-registered: unspecified
+                    left = "unjudged"
+                    break
                 m.actors[tgt]["grand"] = True
+                m.actors[tgt]["gsys"] = gsys
+                if gsys:
+                    m.system[gsys] = tgt + ":g"
+        elif k == "GSTOP":
+            tgt, how = m.resolve(cmd[1])
+            if tgt is not None and m.actors[tgt].get("grand"):
+                nontrivial = True
+                m.actors[tgt]["grand"] = None
+                if m.actors[tgt].get("gsys"):
+                    m.system.pop(m.actors[tgt]["gsys"], None)
+                    m.actors[tgt]["gsys"] = None
         # deliver due delayed sends
         for sid, (due, tgt, seq) in list(m.pending.items()):
             if due <= m.now:
